@@ -235,3 +235,264 @@ package exec
 //@     invariant forall n Cursor :: mem(result, n) ==> exists j Int :: 0 <= j && j <= #k && isChild(nodeSet[j], n)
 //@     invariant forall j Int, n Cursor :: 0 <= j && j <= #k && isChild(nodeSet[j], n) ==> mem(result, n)
 //@     decreases len(nodeSet) - #k
+
+//@ func isAttributeOrNamespace(cursor) (r)
+//@   property C01 C15
+//@   uses axes nodekinds
+//@   requires cursor != nil
+//@   ensures r == !treeNode(cursor)
+
+//@ func selectAttributes(nodeSet) (r)
+//@   property C01 C03 C13 C15
+//@   uses axes
+//@   requires nodes(nodeSet)
+//@   ensures isVSet(r) && nodes(vset(r)) && sasc(vset(r))                                                          @ascending
+//@   ensures len(vset(r)) > 0 ==> fresh(vset(r))                                                                   @fresh
+//@   ensures forall n Cursor :: mem(vset(r), n) ==> exists k Int :: 0 <= k && k < len(nodeSet) && isAttrOf(nodeSet[k], n)   @only-attributes
+//@   ensures forall k Int, n Cursor :: 0 <= k && k < len(nodeSet) && isAttrOf(nodeSet[k], n) ==> mem(vset(r), n)            @all-attributes
+//@   loop 0
+//@     invariant 0 - 1 <= #k && #k < len(nodeSet) || (len(nodeSet) == 0 && #k == 0 - 1)
+//@     invariant fresh(result) && nodes(result) && 0 <= len(result) && len(result) <= cap(result)
+//@     invariant forall n Cursor :: mem(result, n) ==> exists j Int :: 0 <= j && j <= #k && isAttrOf(nodeSet[j], n)
+//@     invariant forall j Int, n Cursor :: 0 <= j && j <= #k && isAttrOf(nodeSet[j], n) ==> mem(result, n)
+//@     decreases len(nodeSet) - #k
+
+//@ func selectNamespace(nodeSet) (r)
+//@   property C01 C03 C13 C15
+//@   uses axes
+//@   requires nodes(nodeSet)
+//@   ensures isVSet(r) && nodes(vset(r)) && sasc(vset(r))                                                          @ascending
+//@   ensures len(vset(r)) > 0 ==> fresh(vset(r))                                                                   @fresh
+//@   ensures forall n Cursor :: mem(vset(r), n) ==> exists k Int :: 0 <= k && k < len(nodeSet) && isNsOf(nodeSet[k], n)   @only-namespaces
+//@   ensures forall k Int, n Cursor :: 0 <= k && k < len(nodeSet) && isNsOf(nodeSet[k], n) ==> mem(vset(r), n)            @all-namespaces
+//@   loop 0
+//@     invariant 0 - 1 <= #k && #k < len(nodeSet) || (len(nodeSet) == 0 && #k == 0 - 1)
+//@     invariant fresh(result) && nodes(result) && 0 <= len(result) && len(result) <= cap(result)
+//@     invariant forall n Cursor :: mem(result, n) ==> exists j Int :: 0 <= j && j <= #k && isNsOf(nodeSet[j], n)
+//@     invariant forall j Int, n Cursor :: 0 <= j && j <= #k && isNsOf(nodeSet[j], n) ==> mem(result, n)
+//@     decreases len(nodeSet) - #k
+
+//@ func selectParent(nodeSet) (r)
+//@   property C01 C03 C13 C15
+//@   uses axes
+//@   requires nodes(nodeSet)
+//@   ensures isVSet(r) && nodes(vset(r)) && sasc(vset(r))                                                          @ascending
+//@   ensures len(vset(r)) > 0 ==> fresh(vset(r))                                                                   @fresh
+//@   ensures forall n Cursor :: mem(vset(r), n) ==> exists k Int :: 0 <= k && k < len(nodeSet) && isParentOf(nodeSet[k], n)   @only-parents
+//@   ensures forall k Int, n Cursor :: 0 <= k && k < len(nodeSet) && isParentOf(nodeSet[k], n) ==> mem(vset(r), n)            @all-parents
+//@   loop 0
+//@     invariant 0 - 1 <= #k && #k < len(nodeSet) || (len(nodeSet) == 0 && #k == 0 - 1)
+//@     invariant fresh(result) && nodes(result) && 0 <= len(result) && len(result) <= cap(result)
+//@     invariant forall n Cursor :: mem(result, n) ==> exists j Int :: 0 <= j && j <= #k && isParentOf(nodeSet[j], n)
+//@     invariant forall j Int, n Cursor :: 0 <= j && j <= #k && isParentOf(nodeSet[j], n) ==> mem(result, n)
+//@     decreases len(nodeSet) - #k
+
+//@ func appendAncestors(cursor, result) (r)
+//@   property C01 C03 C13 C15
+//@   uses axes treelemmas
+//@   requires cursor != nil && nodes(result) && !treeArr(arr(result))
+//@   modifies arr(result)
+//@   decreases pos(cursor)
+//@   ensures nodes(r) && len(r) >= len(result) && (arr(r) == arr(result) || fresh(r))
+//@   ensures forall n Cursor :: mem(r, n) ==> old(mem(result, n)) || isAncOrSelf(cursor, n)          @only-ancestors
+//@   ensures forall n Cursor :: old(mem(result, n)) || isAncOrSelf(cursor, n) ==> mem(r, n)          @all-ancestors
+
+//@ func selectAncestor(nodeSet) (r)
+//@   property C01 C03 C13 C15
+//@   uses axes treelemmas
+//@   requires nodes(nodeSet)
+//@   ensures isVSet(r) && nodes(vset(r)) && sdesc(vset(r))                                                         @descending
+//@   ensures len(vset(r)) > 0 ==> fresh(vset(r))                                                                   @fresh
+//@   ensures forall n Cursor :: mem(vset(r), n) ==> exists k Int :: 0 <= k && k < len(nodeSet) && isAnc(nodeSet[k], n)   @only-ancestors
+//@   ensures forall k Int, n Cursor :: 0 <= k && k < len(nodeSet) && isAnc(nodeSet[k], n) ==> mem(vset(r), n)            @all-ancestors
+//@   loop 0
+//@     invariant 0 - 1 <= #k && #k < len(nodeSet) || (len(nodeSet) == 0 && #k == 0 - 1)
+//@     invariant fresh(result) && nodes(result) && 0 <= len(result) && len(result) <= cap(result)
+//@     invariant forall n Cursor :: mem(result, n) ==> exists j Int :: 0 <= j && j <= #k && isAnc(nodeSet[j], n)
+//@     invariant forall j Int, n Cursor :: 0 <= j && j <= #k && isAnc(nodeSet[j], n) ==> mem(result, n)
+//@     decreases len(nodeSet) - #k
+
+//@ func selectAncestorOrSelf(nodeSet) (r)
+//@   property C01 C03 C13 C15
+//@   uses axes treelemmas
+//@   requires nodes(nodeSet)
+//@   ensures isVSet(r) && nodes(vset(r)) && sdesc(vset(r))                                                         @descending
+//@   ensures len(vset(r)) > 0 ==> fresh(vset(r))                                                                   @fresh
+//@   ensures forall n Cursor :: mem(vset(r), n) ==> exists k Int :: 0 <= k && k < len(nodeSet) && isAncOrSelf(nodeSet[k], n)   @only-ancestors-or-self
+//@   ensures forall k Int, n Cursor :: 0 <= k && k < len(nodeSet) && isAncOrSelf(nodeSet[k], n) ==> mem(vset(r), n)            @all-ancestors-or-self
+//@   loop 0
+//@     invariant 0 - 1 <= #k && #k < len(nodeSet) || (len(nodeSet) == 0 && #k == 0 - 1)
+//@     invariant fresh(result) && nodes(result) && 0 <= len(result) && len(result) <= cap(result)
+//@     invariant forall n Cursor :: mem(result, n) ==> exists j Int :: 0 <= j && j <= #k && isAncOrSelf(nodeSet[j], n)
+//@     invariant forall j Int, n Cursor :: 0 <= j && j <= #k && isAncOrSelf(nodeSet[j], n) ==> mem(result, n)
+//@     decreases len(nodeSet) - #k
+
+//@ func appendDescendant(cursor, result0) (r)
+//@   property C01 C03 C13 C15
+//@   uses axes treelemmas
+//@   requires cursor != nil && nodes(result0) && !treeArr(arr(result0))
+//@   modifies arr(result0)
+//@   decreases last(cursor) - pos(cursor)
+//@   ensures nodes(r) && len(r) >= len(result0) && (arr(r) == arr(result0) || fresh(r))
+//@   ensures forall n Cursor :: mem(r, n) ==> old(mem(result0, n)) || isDesc(cursor, n)              @only-descendants
+//@   ensures forall n Cursor :: old(mem(result0, n)) || isDesc(cursor, n) ==> mem(r, n)              @all-descendants
+//@   loop 0
+//@     invariant 0 - 1 <= #k && #k < nch(cursor) || (nch(cursor) == 0 && #k == 0 - 1)
+//@     invariant nodes(result) && len(result0) <= len(result) && len(result) <= cap(result) && (arr(result) == arr(result0) || fresh(result))
+//@     invariant forall n Cursor :: mem(result, n) ==> old(mem(result0, n)) || (isDesc(cursor, n) && cidx(cursor, n) <= #k)
+//@     invariant forall n Cursor :: old(mem(result0, n)) || (isDesc(cursor, n) && cidx(cursor, n) <= #k) ==> mem(result, n)
+//@     decreases nch(cursor) - #k
+
+//@ func selectDescendant(nodeSet) (r)
+//@   property C01 C03 C13 C15
+//@   uses axes treelemmas
+//@   requires nodes(nodeSet)
+//@   ensures isVSet(r) && nodes(vset(r)) && sasc(vset(r))                                                          @ascending
+//@   ensures len(vset(r)) > 0 ==> fresh(vset(r))                                                                   @fresh
+//@   ensures forall n Cursor :: mem(vset(r), n) ==> exists k Int :: 0 <= k && k < len(nodeSet) && isDesc(nodeSet[k], n)   @only-descendants
+//@   ensures forall k Int, n Cursor :: 0 <= k && k < len(nodeSet) && isDesc(nodeSet[k], n) ==> mem(vset(r), n)            @all-descendants
+//@   loop 0
+//@     invariant 0 - 1 <= #k && #k < len(nodeSet) || (len(nodeSet) == 0 && #k == 0 - 1)
+//@     invariant fresh(result) && nodes(result) && 0 <= len(result) && len(result) <= cap(result)
+//@     invariant forall n Cursor :: mem(result, n) ==> exists j Int :: 0 <= j && j <= #k && isDesc(nodeSet[j], n)
+//@     invariant forall j Int, n Cursor :: 0 <= j && j <= #k && isDesc(nodeSet[j], n) ==> mem(result, n)
+//@     decreases len(nodeSet) - #k
+
+//@ func selectDescendantOrSelf(nodeSet) (r)
+//@   property C01 C03 C13 C15
+//@   uses axes treelemmas
+//@   requires nodes(nodeSet)
+//@   ensures isVSet(r) && nodes(vset(r)) && sasc(vset(r))                                                          @ascending
+//@   ensures len(vset(r)) > 0 ==> fresh(vset(r))                                                                   @fresh
+//@   ensures forall n Cursor :: mem(vset(r), n) ==> exists k Int :: 0 <= k && k < len(nodeSet) && isDescOrSelf(nodeSet[k], n)   @only-descendants-or-self
+//@   ensures forall k Int, n Cursor :: 0 <= k && k < len(nodeSet) && isDescOrSelf(nodeSet[k], n) ==> mem(vset(r), n)            @all-descendants-or-self
+//@   loop 0
+//@     invariant 0 - 1 <= #k && #k < len(nodeSet) || (len(nodeSet) == 0 && #k == 0 - 1)
+//@     invariant fresh(result) && nodes(result) && 0 <= len(result) && len(result) <= cap(result)
+//@     invariant forall n Cursor :: mem(result, n) ==> exists j Int :: 0 <= j && j <= #k && isDescOrSelf(nodeSet[j], n)
+//@     invariant forall j Int, n Cursor :: 0 <= j && j <= #k && isDescOrSelf(nodeSet[j], n) ==> mem(result, n)
+//@     decreases len(nodeSet) - #k
+
+//@ func appendFollowingSibling(cursor, result) (r)
+//@   property C01 C03 C13 C15
+//@   uses axes treelemmas
+//@   requires cursor != nil && nodes(result) && !treeArr(arr(result))
+//@   modifies arr(result)
+//@   ensures nodes(r) && len(r) >= len(result) && (arr(r) == arr(result) || fresh(r))
+//@   ensures forall n Cursor :: mem(r, n) ==> old(mem(result, n)) || isFollSib(cursor, n)            @only-following-siblings
+//@   ensures forall n Cursor :: old(mem(result, n)) || isFollSib(cursor, n) ==> mem(r, n)            @all-following-siblings
+//@   loop 0
+//@     invariant 0 - 1 <= #k && #k < nch(parent(cursor)) || (nch(parent(cursor)) == 0 && #k == 0 - 1)
+//@     invariant cursor != root && treeNode(cursor)
+//@     invariant forall j Int :: 0 <= j && j <= #k ==> childAt(parent(cursor), j) != cursor
+//@     decreases nch(parent(cursor)) - #k
+
+//@ func selectFollowingSibling(nodeSet) (r)
+//@   property C01 C03 C13 C15
+//@   uses axes treelemmas
+//@   requires nodes(nodeSet)
+//@   ensures isVSet(r) && nodes(vset(r)) && sasc(vset(r))                                                          @ascending
+//@   ensures len(vset(r)) > 0 ==> fresh(vset(r))                                                                   @fresh
+//@   ensures forall n Cursor :: mem(vset(r), n) ==> exists k Int :: 0 <= k && k < len(nodeSet) && isFollSib(nodeSet[k], n)   @only-following-siblings
+//@   ensures forall k Int, n Cursor :: 0 <= k && k < len(nodeSet) && isFollSib(nodeSet[k], n) ==> mem(vset(r), n)            @all-following-siblings
+//@   loop 0
+//@     invariant 0 - 1 <= #k && #k < len(nodeSet) || (len(nodeSet) == 0 && #k == 0 - 1)
+//@     invariant fresh(result) && nodes(result) && 0 <= len(result) && len(result) <= cap(result)
+//@     invariant forall n Cursor :: mem(result, n) ==> exists j Int :: 0 <= j && j <= #k && isFollSib(nodeSet[j], n)
+//@     invariant forall j Int, n Cursor :: 0 <= j && j <= #k && isFollSib(nodeSet[j], n) ==> mem(result, n)
+//@     decreases len(nodeSet) - #k
+
+//@ func appendPrecedingSibling(cursor, result) (r)
+//@   property C01 C03 C13 C15
+//@   uses axes treelemmas
+//@   requires cursor != nil && nodes(result) && !treeArr(arr(result))
+//@   modifies arr(result)
+//@   ensures nodes(r) && len(r) >= len(result) && (arr(r) == arr(result) || fresh(r))
+//@   ensures forall n Cursor :: mem(r, n) ==> old(mem(result, n)) || isPrecSib(cursor, n)            @only-preceding-siblings
+//@   ensures forall n Cursor :: old(mem(result, n)) || isPrecSib(cursor, n) ==> mem(r, n)            @all-preceding-siblings
+//@   loop 0
+//@     invariant 0 - 1 <= i && i < nch(parent(cursor))
+//@     invariant cursor != root && treeNode(cursor)
+//@     invariant forall j Int :: i < j && j < nch(parent(cursor)) ==> childAt(parent(cursor), j) != cursor
+//@     decreases i + 1
+
+//@ func selectPrecedingSibling(nodeSet) (r)
+//@   property C01 C03 C13 C15
+//@   uses axes treelemmas
+//@   requires nodes(nodeSet)
+//@   ensures isVSet(r) && nodes(vset(r)) && sdesc(vset(r))                                                         @descending
+//@   ensures len(vset(r)) > 0 ==> fresh(vset(r))                                                                   @fresh
+//@   ensures forall n Cursor :: mem(vset(r), n) ==> exists k Int :: 0 <= k && k < len(nodeSet) && isPrecSib(nodeSet[k], n)   @only-preceding-siblings
+//@   ensures forall k Int, n Cursor :: 0 <= k && k < len(nodeSet) && isPrecSib(nodeSet[k], n) ==> mem(vset(r), n)            @all-preceding-siblings
+//@   loop 0
+//@     invariant 0 - 1 <= #k && #k < len(nodeSet) || (len(nodeSet) == 0 && #k == 0 - 1)
+//@     invariant fresh(result) && nodes(result) && 0 <= len(result) && len(result) <= cap(result)
+//@     invariant forall n Cursor :: mem(result, n) ==> exists j Int :: 0 <= j && j <= #k && isPrecSib(nodeSet[j], n)
+//@     invariant forall j Int, n Cursor :: 0 <= j && j <= #k && isPrecSib(nodeSet[j], n) ==> mem(result, n)
+//@     decreases len(nodeSet) - #k
+
+//@ func appendFollowing(cursor, result0) (r)
+//@   property C01 C03 C13 C15
+//@   uses axes treelemmas
+//@   requires cursor != nil && nodes(result0) && !treeArr(arr(result0))
+//@   modifies arr(result0)
+//@   decreases pos(cursor)
+//@   ensures nodes(r) && len(r) >= len(result0) && (arr(r) == arr(result0) || fresh(r))
+//@   ensures forall n Cursor :: mem(r, n) ==> old(mem(result0, n)) || isFoll(cursor, n)              @only-following
+//@   ensures forall n Cursor :: old(mem(result0, n)) || isFoll(cursor, n) ==> mem(r, n)              @all-following
+//@   loop 0
+//@     invariant 0 - 1 <= #k && #k < nch(parent(cursor)) || (nch(parent(cursor)) == 0 && #k == 0 - 1)
+//@     invariant cursor != root
+//@     invariant found == (!treeNode(cursor) || idx(cursor) <= #k)
+//@     invariant nodes(result) && len(result0) <= len(result) && len(result) <= cap(result) && (arr(result) == arr(result0) || fresh(result))
+//@     invariant forall n Cursor :: mem(result, n) ==> old(mem(result0, n)) || (isDesc(parent(cursor), n) && pos(n) > last(cursor) && cidx(parent(cursor), n) <= #k)
+//@     invariant forall n Cursor :: old(mem(result0, n)) || (isDesc(parent(cursor), n) && pos(n) > last(cursor) && cidx(parent(cursor), n) <= #k) ==> mem(result, n)
+//@     decreases nch(parent(cursor)) - #k
+
+//@ func selectFollowing(nodeSet) (r)
+//@   property C01 C03 C13 C15
+//@   uses axes treelemmas
+//@   requires nodes(nodeSet)
+//@   ensures isVSet(r) && nodes(vset(r)) && sasc(vset(r))                                                          @ascending
+//@   ensures len(vset(r)) > 0 ==> fresh(vset(r))                                                                   @fresh
+//@   ensures forall n Cursor :: mem(vset(r), n) ==> exists k Int :: 0 <= k && k < len(nodeSet) && isFoll(nodeSet[k], n)   @only-following
+//@   ensures forall k Int, n Cursor :: 0 <= k && k < len(nodeSet) && isFoll(nodeSet[k], n) ==> mem(vset(r), n)            @all-following
+//@   loop 0
+//@     invariant 0 - 1 <= #k && #k < len(nodeSet) || (len(nodeSet) == 0 && #k == 0 - 1)
+//@     invariant fresh(result) && nodes(result) && 0 <= len(result) && len(result) <= cap(result)
+//@     invariant forall n Cursor :: mem(result, n) ==> exists j Int :: 0 <= j && j <= #k && isFoll(nodeSet[j], n)
+//@     invariant forall j Int, n Cursor :: 0 <= j && j <= #k && isFoll(nodeSet[j], n) ==> mem(result, n)
+//@     decreases len(nodeSet) - #k
+
+//@ func appendPreceding(cursor, result0) (r)
+//@   property C01 C03 C13 C15
+//@   uses axes treelemmas
+//@   requires cursor != nil && nodes(result0) && !treeArr(arr(result0))
+//@   modifies arr(result0)
+//@   decreases pos(cursor)
+//@   ensures nodes(r) && len(r) >= len(result0) && (arr(r) == arr(result0) || fresh(r))
+//@   ensures forall n Cursor :: mem(r, n) ==> old(mem(result0, n)) || isPrec(cursor, n)              @only-preceding
+//@   ensures forall n Cursor :: old(mem(result0, n)) || isPrec(cursor, n) ==> mem(r, n)              @all-preceding
+//@   loop 0
+//@     invariant 0 - 1 <= i && i < nch(parent(cursor))
+//@     invariant cursor != root
+//@     invariant found == (treeNode(cursor) && idx(cursor) > i)
+//@     invariant nodes(result) && len(result0) <= len(result) && len(result) <= cap(result) && (arr(result) == arr(result0) || fresh(result))
+//@     invariant forall n Cursor :: mem(result, n) ==> old(mem(result0, n)) || (isDesc(parent(cursor), n) && last(n) < pos(cursor) && cidx(parent(cursor), n) > i)
+//@     invariant forall n Cursor :: old(mem(result0, n)) || (isDesc(parent(cursor), n) && last(n) < pos(cursor) && cidx(parent(cursor), n) > i) ==> mem(result, n)
+//@     decreases i + 1
+
+//@ func selectPreceding(nodeSet) (r)
+//@   property C01 C03 C13 C15
+//@   uses axes treelemmas
+//@   requires nodes(nodeSet)
+//@   ensures isVSet(r) && nodes(vset(r)) && sdesc(vset(r))                                                         @descending
+//@   ensures len(vset(r)) > 0 ==> fresh(vset(r))                                                                   @fresh
+//@   ensures forall n Cursor :: mem(vset(r), n) ==> exists k Int :: 0 <= k && k < len(nodeSet) && isPrec(nodeSet[k], n)   @only-preceding
+//@   ensures forall k Int, n Cursor :: 0 <= k && k < len(nodeSet) && isPrec(nodeSet[k], n) ==> mem(vset(r), n)            @all-preceding
+//@   loop 0
+//@     invariant 0 - 1 <= #k && #k < len(nodeSet) || (len(nodeSet) == 0 && #k == 0 - 1)
+//@     invariant fresh(result) && nodes(result) && 0 <= len(result) && len(result) <= cap(result)
+//@     invariant forall n Cursor :: mem(result, n) ==> exists j Int :: 0 <= j && j <= #k && isPrec(nodeSet[j], n)
+//@     invariant forall j Int, n Cursor :: 0 <= j && j <= #k && isPrec(nodeSet[j], n) ==> mem(result, n)
+//@     decreases len(nodeSet) - #k
